@@ -271,7 +271,12 @@ def parent_main(check_id, tier, seed, nshards=None, only_case=None):
     if rust:
         ok, log = boot.build_rust(rust)
         if not ok:
-            return inconclusive(check_id, tier, seed, mod, "cargo-build-failed", t0, {"cargo_log": log[-1500:]})
+            time.sleep(3)
+            ok, log2 = boot.build_rust(rust)  # once more: a concurrent cargo may have held things up
+            log = log + " || retry: " + log2
+        if not ok:
+            tail = " ".join(log.strip().splitlines()[-3:])[-300:]
+            return inconclusive(check_id, tier, seed, mod, "cargo-build-failed:" + tail.replace(" ", "_"), t0, {"cargo_log": log[-1500:]})
         env["VERIF_FRESH_RUST"] = ",".join(rust)
         env["VERIF_RUST_TARGET_USED"] = os.environ.get("VERIF_RUST_TARGET_USED", "")
     if hasattr(mod, "parent_setup"):
